@@ -656,7 +656,8 @@ def import_plugins(folder_to_scan_for_plugins):
     modules_to_import = set()
     base_checks = set(checks.AbstractCheck.__subclasses__())  # @UndefinedVariable
     base_field_formats = set(fields.AbstractFieldFormat.__subclasses__())  # @UndefinedVariable
-    pattern_to_scan = os.path.join(folder_to_scan_for_plugins, "*.py")
+    # NOTE: Escape the folder so names containing "[", "*" or "?" are not mistaken for pattern characters.
+    pattern_to_scan = os.path.join(glob.escape(folder_to_scan_for_plugins), "*.py")
     for module_to_import_path in glob.glob(pattern_to_scan):
         module_name = os.path.splitext(os.path.basename(module_to_import_path))[0]
         modules_to_import.add((module_name, module_to_import_path))
